@@ -6,6 +6,7 @@ import RbV.Lemmas.QGramIter
 import RbV.Lemmas.QGramExact
 import RbV.Lemmas.QGramMatches
 import RbV.Lemmas.QGramIndex
+import RbV.Lemmas.QGramExactModel
 /-!
 # C19 — k-mer / q-gram indexing and sparse chaining are exact
 
@@ -185,6 +186,25 @@ theorem matchesRef_spec (mc q minc : Nat) (pat text : List Nat) (r : MatchRec) :
 
 example : matchesModel 9 2 1 [3, 1, 2, 3] [1, 2, 3, 1, 2] = [(0, 3, 2, 5, 2), (1, 4, 0, 3, 2)] ∧
     matchesRef 9 2 1 [3, 1, 2, 3] [1, 2, 3, 1, 2] = [(0, 3, 2, 5, 2), (1, 4, 0, 3, 2)] := by decide
+
+/-- **mirror model of `exact_matches`** (one open match per diagonal in a map; a hit with
+`m.pattern.stop - q + 1 != i` pushes the open match of its diagonal and opens a new one; all open matches are pushed at the
+end) reports exactly the records of the reference — for every pattern, text, `q ≥ 1` and `max_count`. -/
+theorem exact_matches_model_refines (mc q : Nat) (pat text : List Nat) (hq : 0 < q) (r : ExactRec) :
+    r ∈ exactMatchesModel mc q pat text ↔ r ∈ exactMatchesRef mc q pat text :=
+  exactMatchesModel_mem_iff mc q pat text hq r
+
+/-- with masking too, the reference reports exactly the maximal runs of consecutive (unmasked) hits along a diagonal -/
+theorem exact_matches_are_runs_of_hits (mc q : Nat) (pat text : List Nat) (hq : 0 < q) (r : ExactRec) :
+    r ∈ exactMatchesRef mc q pat text ↔
+      ∃ a p n, r = (a, a + n + q, p, p + n + q) ∧
+        (∀ j, j ≤ n → (a + j, p + j) ∈ hits mc q pat text) ∧
+        ¬ (0 < a ∧ 0 < p ∧ (a - 1, p - 1) ∈ hits mc q pat text) ∧
+        (a + n + 1, p + n + 1) ∉ hits mc q pat text :=
+  exactMatchesRef_iff_run mc q pat text hq r
+
+example : exactMatchesModel 9 2 [1, 2, 3, 9, 1, 2] [0, 1, 2, 3, 1, 2] = [(0, 3, 1, 4), (0, 2, 4, 6), (4, 6, 1, 3), (4, 6, 4, 6)] := by
+  decide
 
 /-- any text of length `n` masks nothing when `mc ≥ n + 1` -/
 theorem nothing_masked (mc : Nat) (text : List Nat) (h : text.length + 1 ≤ mc) (g : List Nat) :
